@@ -30,10 +30,8 @@ func (f *Field[T]) reduce(a *Element[T], strict bool) *Element[T] {
 
 	// sanity check
 	if ba, aConst := f.constantValue(a); aConst {
-		if a.overflow != 0 {
-			panic("trying to reduce a constant, which happen to have an overflow flag set")
-		}
-		// strict reduction of a constant: the canonical representative is again a constant
+		// all limbs are constants (also when the element was computed, e.g. x - x): the canonical
+		// representative is again a constant
 		ba.Mod(ba, f.fParams.Modulus())
 		ret := newConstElement[T](ba, false)
 		ret.modReduced = true
